@@ -97,7 +97,8 @@ def showCircuit (c : Circuit) : List String :=
 
 def showRead : Except Err Circuit → List String
   | .error e => ["throw:" ++ e.name]
-  | .ok c => showCircuit c ++ [s!"hpwl {c.hpwl}"]
+  | .ok c => showCircuit c ++ [s!"py {c.cells.length} {c.nets.length} {c.rows.length} {totalPins c.nets} {c.rowHeight.getD 0} {c.hpwl}",
+                               s!"hpwl {c.hpwl}"]
 
 def addToLastNet (nets : List NetRec) (p : PinRec) : List NetRec :=
   match nets.reverse with
